@@ -1,5 +1,7 @@
 import Abverif.Model.Session
 import Abverif.Model.SessSpec
+import Abverif.Model.SessTrace
+import Abverif.Model.SendTable
 /-
 Line protocol for the session model.
 
@@ -8,9 +10,22 @@ Line protocol for the session model.
   request : `sessspec <s|d> <ev> …`         same script; per event the Spec verdicts the harness evaluates on the
                                             implementation trace (`Abverif.SessSpec.Spec.run`: the expected
                                             property observables, same rendering)
+  request : `sesstrace <s|d> <n> <ev>×n <obs>×n`   the trace Spec of C06/C10 (`Abverif.SessTrace.check`) applied to a
+                                            trace observed elsewhere: n event tokens, then the n observation lines
+                                            they produced (each one token, as printed by `sess` / the workers)
+  answer  : `ok` | `<event index>:<violation> …`
+  request : `sendtable`                     the send() classification table generated from the source, 4 rows x 2 columns
 
 Event tokens (no blanks inside; fields separated by `,`):
-  open closed pump join leave
+  open[;acts] closed[;acts] pump tick join leave disconnect
+      open: acts = onConnect ; closed: acts = onLeave!onDisconnect
+  m.welcome,<sid>[;acts]       WELCOME delivered and the loop run until idle (what C04/C11 scripts mean by it)
+  m.welcome,<sid>,-[;acts]     WELCOME delivered, nothing else          acts = onWelcome!onJoin
+  m.goodbye[;acts] m.abort[;acts]   acts = onLeave        m.challenge[;acts]   acts = onChallenge!onLeave
+  m.invocation,<req>,<reg>,<args>,<kwargs>,<0|1>[;acts]     (last field: receive_progress; acts = the endpoint)
+  fault,<o>.<o>…   o := ok | ser | big | lost | other        outcomes of the next send() calls on reply paths
+  resolve,<req>,<ret>   fail,<req>,<exc>   lateprog,<req>,<v>
+  ret := n | p | v<val> | c<args>/<kwargs>          exc := r | a<uri>/<args>/<kwargs> | m<uri>/<args> | t<args> | u
   call,<uri>,<args>,<kwargs>,<copts>,<snd>        pub,<uri>,<args>,<kwargs>,<popts>,<snd>
   sub,<h>,<uri>,<sopts>,<snd>                      reg,<h>,<uri>,<ropts>,<snd>
   unsub,<obj>,<snd>   unreg,<obj>,<snd>   cancel,<f>
@@ -21,7 +36,8 @@ Event tokens (no blanks inside; fields separated by `,`):
   m.event,<sub>,<pub>,<args>,<kwargs>[;acts]       m.invocation,<req>,<reg>  m.interrupt,<req>
   args   := n | a[<v>.<v>…]          kwargs := n | k[<key>=<v>.<key>=<v>…]          snd := ok | fail
   opts   := n | o[<name>=<val>/…]    val := t | f | <nat> | l[<nat>.<nat>…]
-  acts   := <act>!<act>…             act := (r|x)[+<call>…]      call := self | <api event token>
+  acts   := <act>!<act>…             act := [n](r[<ret>]|x[<exc>])[~p<v>.<v>…][+<call>…]      call := self | <api event token>
+            n: a lifecycle hook override that does not call the default body; ~p: progress calls of an endpoint
 -/
 namespace Abverif.Drv.Session
 open Abverif.Session
@@ -127,6 +143,7 @@ def parseApi (s : String) : Option Api :=
   match s.splitOn "," with
   | ["join"] => some .join
   | ["leave"] => some .leave
+  | ["disconnect"] => some .disconnect
   | ["call", u, a, k, o, r] => do
       let u ← u.toNat?; let a ← parseArgs a; let k ← parseKwargs k
       let o ← parseOpts {} setCall o; let r ← parseSnd r
@@ -149,13 +166,55 @@ def parseApi (s : String) : Option Api :=
 def parseCall (s : String) : Option HCall :=
   if s = "self" then some .unsubSelf else (parseApi s).map .api
 
+def parseRet (s : String) : Option Ret :=
+  match s.toList with
+  | [] | ['n'] => some .unit
+  | ['p'] => some .pending
+  | 'v' :: _ => (tl s).toNat?.map .val
+  | 'c' :: _ =>
+    match (tl s).splitOn "/" with
+    | [a, k] => do pure (.callResult ((← parseArgs a).getD []) ((← parseKwargs k).getD []))
+    | _ => none
+  | _ => none
+
+def parseExcK (s : String) : Option ExcK :=
+  match s.toList with
+  | [] | ['r'] => some (.runtime [])
+  | ['u'] => some .unbuildable
+  | 'a' :: _ =>
+    match (tl s).splitOn "/" with
+    | [u, a, k] => do pure (.appError (← u.toNat?) ((← parseArgs a).getD []) ((← parseKwargs k).getD []))
+    | _ => none
+  | 'm' :: _ =>
+    match (tl s).splitOn "/" with
+    | [u, a] => do pure (.mapped (← u.toNat?) ((← parseArgs a).getD []))
+    | _ => none
+  | 't' :: _ => do pure (.runtime ((← parseArgs (tl s)).getD []))
+  | _ => none
+
+/-- head of an act: `[n](r[<ret>]|x[<exc>])[~p<v>.<v>…]` -/
+def parseHead (s : String) : Option HAct := do
+  let (main, prog) ← (match s.splitOn "~" with
+    | [m] => some (m, ([] : List Nat))
+    | [m, p] => (match p.toList with
+        | 'p' :: _ => (parseList String.toNat? "." (tl p)).map (fun l => (m, l))
+        | _ => none)
+    | _ => none)
+  let (dflt, rest) := (match main.toList with
+    | 'n' :: _ => (false, tl main)
+    | _ => (true, main))
+  match rest.toList with
+  | 'r' :: _ => do pure { raises := false, dflt := dflt, ret := (← parseRet (tl rest)), progress := prog }
+  | 'x' :: _ => do pure { raises := true, dflt := dflt, exc := (← parseExcK (tl rest)), progress := prog }
+  | _ => none
+
 def parseAct (s : String) : Option HAct :=
   match s.splitOn "+" with
   | [] => none
   | hd :: cs => do
-      let raises ← (match hd with | "r" => some false | "x" => some true | _ => none)
+      let a ← parseHead hd
       let calls ← cs.mapM parseCall
-      pure { calls := calls, raises := raises }
+      pure { a with calls := calls }
 
 def parseActs (s : String) : Option (List HAct) := parseList parseAct "!" s
 
@@ -166,6 +225,7 @@ def parsePayload (a k : String) : Option Payload := do
 def parseMsg (s : String) : Option InMsg :=
   match s.splitOn "," with
   | ["m.welcome", sid] => sid.toNat?.map .welcome
+  | ["m.welcome", sid, "-"] => sid.toNat?.map .welcome
   | ["m.goodbye"] => some .goodbye
   | ["m.abort"] => some .abort
   | ["m.challenge"] => some .challenge
@@ -184,22 +244,51 @@ def parseMsg (s : String) : Option InMsg :=
       let g ← (if g = "n" then some none else g.toNat?.map some)
       pure (.unregistered (← r.toNat?) g)
   | ["m.event", sb, pb, a, k] => do pure (.event (← sb.toNat?) (← pb.toNat?) (← parsePayload a k))
-  | ["m.invocation", r, g] => do pure (.invocation (← r.toNat?) (← g.toNat?) {})
+  | ["m.invocation", r, g] => do pure (.invocation (← r.toNat?) (← g.toNat?) {} false)
+  | ["m.invocation", r, g, a, k, rp] => do
+      let rp ← (match rp with | "0" => some false | "1" => some true | _ => none)
+      pure (.invocation (← r.toNat?) (← g.toNat?) (← parsePayload a k) rp)
   | ["m.interrupt", r] => do pure (.interrupt (← r.toNat?))
   | _ => none
 
-def parseEv (s : String) : Option SEv :=
-  match s with
-  | "open" => some .open_
-  | "closed" => some .closed
-  | "pump" => some .pump
-  | _ =>
-    if s.startsWith "m." then
-      match s.splitOn ";" with
-      | [m] => (parseMsg m).map (fun m => .msg m [])
-      | [m, acts] => do pure (.msg (← parseMsg m) (← parseActs acts))
-      | _ => none
-    else (parseApi s).map .api
+def parseSendOut : String → Option SendOut
+  | "ok" => some .ok
+  | "ser" => some .serialization
+  | "big" => some .payloadExceeded
+  | "lost" => some .transportLost
+  | "other" => some .other
+  | _ => none
+
+def parseOther (s : String) : Option SEv :=
+  match s.splitOn "," with
+  | ["fault", l] => (parseList parseSendOut "." l).map .fault
+  | ["resolve", r, v] => do pure (.resolve (← r.toNat?) (← parseRet v))
+  | ["fail", r, e] => do pure (.fail (← r.toNat?) (← parseExcK e))
+  | ["lateprog", r, v] => do pure (.lateProgress (← r.toNat?) (← v.toNat?))
+  | _ => (parseApi s).map .api
+
+/-- one token is one or two events: the plain `m.welcome,<sid>` stands for the delivery followed by the loop
+running until it is idle -/
+def parseEv (s : String) : Option (List SEv) :=
+  let (hd, acts?) := (match s.splitOn ";" with
+    | [h] => (h, some [])
+    | [h, a] => (h, parseActs a)
+    | _ => (s, none))
+  match acts? with
+  | none => none
+  | some acts =>
+    match hd with
+    | "open" => some [.open_ acts]
+    | "closed" => some [.closed acts]
+    | "pump" => some [.pump]
+    | "tick" => some [.tick]
+    | _ =>
+      if hd.startsWith "m." then
+        (parseMsg hd).map (fun m =>
+          match hd.splitOn "," with
+          | ["m.welcome", _] => [.msg m acts, .pump]
+          | _ => [.msg m acts])
+      else if acts.isEmpty then (parseOther hd).map (fun e => [e]) else none
 
 def parseMode : String → Option Sched
   | "s" => some .sync
@@ -233,7 +322,7 @@ def attrNames : List (Attr × String) :=
    (.eligibleAuthid, "eligible_authid"), (.eligibleAuthrole, "eligible_authrole"), (.exclude, "exclude"),
    (.excludeAuthid, "exclude_authid"), (.excludeAuthrole, "exclude_authrole"), (.excludeMe, "exclude_me"),
    (.forceReregister, "force_reregister"), (.forwardFor, "forward_for"), (.getRetained, "get_retained"),
-   (.invoke, "invoke"), (.match_, "match"), (.receiveProgress, "receive_progress"), (.retain, "retain"),
+   (.invoke, "invoke"), (.match_, "match"), (.progress, "progress"), (.receiveProgress, "receive_progress"), (.retain, "retain"),
    (.timeout, "timeout"), (.transactionHash, "transaction_hash")]
 
 def rAttrs (as : Attrs) : String :=
@@ -251,6 +340,10 @@ def rMsg (m : OutMsg) : String :=
   | .register => s!"REGISTER,{m.req},{rAttrs m.opts},{m.uri}"
   | .call => s!"CALL,{m.req},{rAttrs m.opts},{m.uri},{rArgs m.args},{rKwargs m.kwargs}"
   | .publish => s!"PUBLISH,{m.req},{rAttrs m.opts},{m.uri},{rArgs m.args},{rKwargs m.kwargs}"
+  | .abort => "ABORT"
+  | .authenticate => "AUTHENTICATE"
+  | .yield_ => s!"YIELD,{m.req},{rAttrs m.opts},{rArgs m.args},{rKwargs m.kwargs}"
+  | .error => s!"ERROR,{m.req},{m.uri},{rArgs m.args},{rKwargs m.kwargs}"
 
 def rRVal : RVal → String
   | .none_ => "none"
@@ -276,10 +369,16 @@ def rExc : Exc → String
   | .alreadyCalled => "AlreadyCalled"
   | .sendFailed => "SendFailed"
   | .internal => "Internal"
+  | .keyError => "KeyError"
+  | .assertionError => "AssertionError"
+  | .serializationError => "SerializationError"
+  | .payloadExceeded => "PayloadExceededError"
+  | .other => "Other"
 
 def rKwVal : KwVal → String
   | .v x => toString x
   | .details o => s!"d{o}"
+  | .callDetails o p => s!"D{o}.{if p then 1 else 0}"
 
 def rOut : SOut → String
   | .send m => "send:" ++ rMsg m
@@ -296,9 +395,28 @@ def rOut : SOut → String
   | .raise_ e => "raise:" ++ rExc e
   | .transportClose => "close"
   | .unmodelled => "unmodelled"
+  | .hook h arg => (match h with
+      | .onConnect => "hook:onConnect" | .onJoin => "hook:onJoin" | .onLeave => s!"hook:onLeave,{arg}"
+      | .onDisconnect => "hook:onDisconnect" | .onChallenge => "hook:onChallenge" | .onWelcome => "hook:onWelcome")
+  | .fire e => (match e with
+      | .connect => "fire:connect" | .join => "fire:join" | .ready => "fire:ready" | .leave => "fire:leave"
+      | .disconnect => "fire:disconnect")
+  | .endpoint req obj h a k =>
+    s!"ep:{req},{obj},{h},{rArgs a},k" ++ join "." ((sortBy (·.1) k).map (fun e => s!"{e.1}={rKwVal e.2}"))
+  | .sendFail m f => "sendfail:" ++ (match f with
+      | .ok => "ok" | .serialization => "ser" | .payloadExceeded => "big" | .transportLost => "lost" | .other => "other")
+      ++ ":" ++ rMsg m
+  | .lost _ => "lost"
+  | .later _ => "later"
 
 def isComplete : SOut → Bool
   | .complete _ _ => true
+  | _ => false
+
+/-- outputs the harness cannot observe: an exception that ended in an unhandled Deferred failure / the loop's
+exception handler -/
+def hidden : SOut → Bool
+  | .lost _ | .later _ => true
   | _ => false
 
 def completeKey : SOut → Nat
@@ -308,21 +426,198 @@ def completeKey : SOut → Nat
 /-- canonical observation of one event: outputs in order, except that cell completions (which the harness
 observes by polling after the event) come last, sorted by future -/
 def rObs (os : List SOut) : String :=
+  let os := os.filter (fun o => !hidden o)
   let a := os.filter (fun o => !isComplete o)
   let b := sortBy completeKey (os.filter isComplete)
   match a ++ b with
   | [] => "-"
   | l => join ";" (l.map rOut)
 
+/-- run a script of tokens (each one or two events); one output list per token -/
+def runToks (s : Sess) : List (List SEv) → List (List SOut)
+  | [] => []
+  | evs :: rest =>
+    let r := run s evs
+    r.2.flatten :: runToks r.1 rest
+
+def specToks (sp : Abverif.SessSpec.Spec) : List (List SEv) → List (List SOut)
+  | [] => []
+  | evs :: rest =>
+    let r := Abverif.SessSpec.Spec.run sp evs
+    r.2.flatten :: specToks r.1 rest
+
+/-! ### reading observation lines back (for `sesstrace`) -/
+
+def parseExcName : String → Exc
+  | "ProtocolError" => .protocolError
+  | "TransportLost" => .transportLost
+  | "TypeError" => .typeError
+  | "AttributeError" => .attributeError
+  | "Exception" => .exception
+  | "AlreadyCalled" => .alreadyCalled
+  | "SendFailed" => .sendFailed
+  | "KeyError" => .keyError
+  | "AssertionError" => .assertionError
+  | "SerializationError" => .serializationError
+  | "PayloadExceededError" => .payloadExceeded
+  | _ => .other
+
+/-- `k0=D0.1.1=2`: entries are separated by `.`, but a details value contains one itself -/
+def parseObsKw (s : String) : List (Key × KwVal) :=
+  let parts := if s = "" then [] else s.splitOn "."
+  -- glue the pieces that carry no `=` to their predecessor
+  let glued := parts.foldl (fun (acc : List String) x =>
+    if x.contains '=' then acc ++ [x] else
+      match acc.reverse with
+      | [] => [x]
+      | l :: r => r.reverse ++ [l ++ "." ++ x]) []
+  glued.filterMap (fun e =>
+    match e.splitOn "=" with
+    | [k, v] => do
+      let k ← k.toNat?
+      match v.toList with
+      | 'D' :: _ =>
+        (match (tl v).splitOn "." with
+         | [o, p] => do pure (k, .callDetails (← o.toNat?) (p == "1"))
+         | _ => none)
+      | 'd' :: _ => (tl v).toNat?.map (fun o => (k, .details o))
+      | _ => v.toNat?.map (fun x => (k, .v x))
+    | _ => none)
+
+def parseHookName : String → Option Hook
+  | "onConnect" => some .onConnect | "onJoin" => some .onJoin | "onLeave" => some .onLeave
+  | "onDisconnect" => some .onDisconnect | "onChallenge" => some .onChallenge | "onWelcome" => some .onWelcome
+  | _ => none
+
+def parseObsEvName : String → Option ObsEv
+  | "connect" => some .connect | "join" => some .join | "ready" => some .ready | "leave" => some .leave
+  | "disconnect" => some .disconnect
+  | _ => none
+
+def parseSentMsg (s : String) : OutMsg :=
+  match s.splitOn "," with
+  | ["HELLO"] => { typ := .hello }
+  | ["GOODBYE"] => { typ := .goodbye }
+  | ["ABORT"] => { typ := .abort }
+  | ["AUTHENTICATE"] => { typ := .authenticate }
+  | ["YIELD", r, o, a, k] =>
+    { typ := .yield_, req := r.toNat?.getD 0, opts := if o = "{progress=T}" then [(.progress, .b true)] else [],
+      args := ((parseArgs a).join).getD [], kwargs := ((parseKwargs k).join).getD [] }
+  | ["ERROR", r, u, a, k] =>
+    { typ := .error, req := r.toNat?.getD 0, uri := u.toNat?.getD 0, args := ((parseArgs a).join).getD [],
+      kwargs := ((parseKwargs k).join).getD [] }
+  | "CANCEL" :: _ => { typ := .cancel }
+  | "CALL" :: r :: _ => { typ := .call, req := r.toNat?.getD 0 }
+  | "PUBLISH" :: r :: _ => { typ := .publish, req := r.toNat?.getD 0 }
+  | "SUBSCRIBE" :: r :: _ => { typ := .subscribe, req := r.toNat?.getD 0 }
+  | "UNSUBSCRIBE" :: r :: _ => { typ := .unsubscribe, req := r.toNat?.getD 0 }
+  | "REGISTER" :: r :: _ => { typ := .register, req := r.toNat?.getD 0 }
+  | "UNREGISTER" :: r :: _ => { typ := .unregister, req := r.toNat?.getD 0 }
+  | _ => { typ := .cancel }
+
+/-- one observation token; what the trace Spec does not read becomes `unmodelled` -/
+def parseObsTok (t : String) : SOut :=
+  match t.splitOn ":" with
+  | ["hook", r] =>
+    (match r.splitOn "," with
+     | [h] => (parseHookName h).elim .unmodelled (fun h => .hook h 0)
+     | [h, a] => (parseHookName h).elim .unmodelled (fun h => .hook h (a.toNat?.getD 0))
+     | _ => .unmodelled)
+  | ["fire", e] => (parseObsEvName e).elim .unmodelled .fire
+  | ["raise", e] => .raise_ (parseExcName e)
+  | ["caught", e] => .caught (parseExcName e)
+  | ["ret", "none"] => .retNone
+  | ["ret", f] => f.toNat?.elim .unmodelled .ret
+  | ["uerr"] => .userError
+  | ["close"] => .transportClose
+  | "send" :: rest => .send (parseSentMsg (join ":" rest))
+  | "sendfail" :: _ :: rest => .sendFail (parseSentMsg (join ":" rest)) .other
+  | ["done", r] =>
+    (match r.splitOn "=" with
+     | f :: v :: _ =>
+       (match f.toNat? with
+        | none => .unmodelled
+        | some f =>
+          if v.startsWith "reg" then .complete f (.value (.registration ((v.drop 3).toNat?.getD 0)))
+          else if v.startsWith "closed" then .complete f (.closed ((v.drop 6).toNat?.getD 0))
+          else .complete f (.value .none_))
+     | _ => .unmodelled)
+  | ["ep", r] =>
+    (match r.splitOn "," with
+     | [req, obj, h, a, k] =>
+       (match req.toNat?, obj.toNat?, h.toNat? with
+        | some req, some obj, some h => .endpoint req obj h (((parseArgs a).join).getD []) (parseObsKw (tl k))
+        | _, _, _ => .unmodelled)
+     | _ => .unmodelled)
+  | _ => .unmodelled
+
+def parseObsLine (l : String) : List SOut :=
+  if l = "-" then [] else (l.splitOn ";").map parseObsTok
+
+def rHook : Hook → String
+  | .onConnect => "onConnect" | .onJoin => "onJoin" | .onLeave => "onLeave" | .onDisconnect => "onDisconnect"
+  | .onChallenge => "onChallenge" | .onWelcome => "onWelcome"
+
+def rObsEv : ObsEv → String
+  | .connect => "connect" | .join => "join" | .ready => "ready" | .leave => "leave" | .disconnect => "disconnect"
+
+def rViol : Abverif.SessTrace.Viol → String
+  | .hookOrder h => "hook-order," ++ rHook h
+  | .obsOrder e => "observer-order," ++ rObsEv e
+  | .leaveUnexpected => "leave-unexpected"
+  | .leaveMissing => "leave-missing"
+  | .gate => "gate"
+  | .goodbyeTwice => "goodbye-twice"
+  | .goodbyeUnanswered => "goodbye-unanswered"
+  | .goodbyeEchoed => "goodbye-echoed"
+  | .pending f => s!"pending,{f}"
+  | .apiAfterEnd => "api-after-end"
+  | .replyUnsolicited r => s!"reply-unsolicited,{r}"
+  | .noReply r => s!"no-reply,{r}"
+  | .lateProgress r => s!"late-progress,{r}"
+  | .progressUnasked r => s!"progress-unasked,{r}"
+  | .endpointArgs r => s!"endpoint-args,{r}"
+  | .invocationNotRejected r => s!"invocation-not-rejected,{r}"
+  | .cancelledYields r => s!"cancelled-yields,{r}"
+
+def handleTrace (mode : Sched) (evs : List (List SEv)) (obs : List (List SOut)) : String :=
+  -- index violations by token, not by event
+  let rec go (i : Nat) (σ : Abverif.SessTrace.Scan) : List (List SEv) → List (List SOut) → List String
+    | [], _ => []
+    | es :: rest, obs =>
+      let o := obs.headD []
+      let tr : List (SEv × List SOut) := match es with
+        | [] => []
+        | [e] => [(e, o)]
+        | e :: e2 :: _ => [(e, []), (e2, o)]
+      let r := tr.foldl (fun (acc : Abverif.SessTrace.Scan × List Abverif.SessTrace.Viol) x =>
+        let r := Abverif.SessTrace.stepCheck mode acc.1 x.1 x.2
+        (r.1, acc.2 ++ r.2)) (σ, [])
+      r.2.map (fun v => s!"{i}:{rViol v}") ++ go (i + 1) r.1 rest obs.tail
+  match go 0 {} evs obs with
+  | [] => "ok"
+  | l => join " " l
+
 def handle : List String → Option String
   | "sess" :: mode :: evs => do
       let mode ← parseMode mode
       let evs ← evs.mapM parseEv
-      pure (join " | " ((run (init mode) evs).2.map rObs))
+      pure (join " | " ((runToks (init mode) evs).map rObs))
   | "sessspec" :: mode :: evs => do
       let _ ← parseMode mode
       let evs ← evs.mapM parseEv
-      pure (join " | " ((Abverif.SessSpec.Spec.run {} evs).2.map rObs))
+      pure (join " | " ((specToks {} evs).map rObs))
+  | ["sendtable"] =>
+      -- the generated table, row by row (ws/twisted, ws/asyncio, rs/twisted, rs/asyncio) x (unserializable, oversize)
+      some (join " " (Transport.all.flatMap (fun t => [Cause.unserializable, Cause.oversize].map (fun c =>
+        match sendTable t c with
+        | .ok => "ok" | .serialization => "ser" | .payloadExceeded => "big" | .transportLost => "lost" | .other => "other"))))
+  | "sesstrace" :: mode :: n :: rest => do
+      let mode ← parseMode mode
+      let n ← n.toNat?
+      if rest.length != 2 * n then none else
+      let evs ← (rest.take n).mapM parseEv
+      pure (handleTrace mode evs ((rest.drop n).map parseObsLine))
   | _ => none
 
 end Abverif.Drv.Session
